@@ -96,6 +96,37 @@ def _alarm(signum, frame):  # noqa: ANN001, ARG001
 
 
 def _run_one(seed: int, keep_case: bool) -> dict:
+    """One seed = one execution.  Machines whose system under test keeps process-global state
+    (isolate_runs) get a pristine forked child per seed, so that nothing one run leaves behind
+    (module registries, memo tables) can reach the next - whichever worker it lands on."""
+    m = _MACHINE
+    if not getattr(m, "isolate_runs", False):
+        return _run_one_here(seed, keep_case)
+    import pickle
+
+    r, w = os.pipe()
+    pid = os.fork()
+    if pid == 0:
+        code = 0
+        try:
+            os.close(r)
+            out = _run_one_here(seed, keep_case)
+            with os.fdopen(w, "wb") as f:
+                pickle.dump(out, f)
+        except BaseException:  # noqa: BLE001
+            code = 3
+        finally:
+            os._exit(code)
+    os.close(w)
+    with os.fdopen(r, "rb") as f:
+        data = f.read()
+    _, status = os.waitpid(pid, 0)
+    if os.waitstatus_to_exitcode(status) != 0 or not data:
+        return {"seed": seed, "harness_error": f"isolated run child exited with {os.waitstatus_to_exitcode(status)}"}
+    return pickle.loads(data)  # noqa: S301
+
+
+def _run_one_here(seed: int, keep_case: bool) -> dict:
     from simkit.core import HarnessError
 
     m = _MACHINE
@@ -205,7 +236,9 @@ def main(argv: list[str]) -> int:
         for k in known:
             f = VERIF / k["replay"]
             rec = json.loads(f.read_text())
-            res = machine.replay(rec["case"], [])
+            from simkit.core import replay_isolated
+
+            res = replay_isolated(machine, rec["case"], [])
             rep = any(sig_matches(k["signature"], v["signature"]) for v in res.violations)
             known_replayed.append({"id": k.get("id"), "reproduced": rep})
             if rep:
@@ -302,7 +335,9 @@ def main(argv: list[str]) -> int:
                     case, tests = shrink(machine, case, h["v"]["signature"], [], budget_s=45.0 if tier == "quick" else 120.0)
                 except Exception as e:  # noqa: BLE001
                     harness_errors.append(f"shrink failed for {sk}: {type(e).__name__}: {e}")
-            res = machine.replay(case, [])
+            from simkit.core import replay_isolated
+
+            res = replay_isolated(machine, case, [])
             vv = next((v for v in res.violations if sig_key(v["signature"]) == sk), h["v"])
             from simkit.core import digest_of
 
